@@ -110,12 +110,16 @@ def gen_panel(r, g, n_geos, n_dates, cls='continuous', id_style='str', origin=No
     for k in range(D):
       if not present[:, k].any():
         present[r.randrange(G), k] = True
+  unit = 1.0
+  if cls in ('continuous', 'gappy', 'duplicates') and r.random() < 0.15:
+    unit = 2.0 ** r.choice([-20, 20, 26, 30])      # response unit: micro-units ... billions
+    vals = vals * unit
   if date_style == 'iso':
     dates = [d.isoformat() for d in days]
   else:
     dates = [pd.Timestamp(d) for d in days]
   return {'ids': ids, 'dates': dates, 'days': days, 'values': vals, 'present': present,
-          'cls': cls, 'id_style': id_style, 'features': sorted(set(feats))}
+          'cls': cls, 'id_style': id_style, 'features': sorted(set(feats)) + (['unit=2^%d' % int(math.log2(unit))] if unit != 1.0 else [])}
 
 
 def panel_frame(panel, r=None, shuffle=True, response='response', extra_col=False):
@@ -172,6 +176,10 @@ def elig_frame(rows, r=None, index_keyed=False, id_cast=None, shuffle=True):
       'control': [ROWS[c][0] for _, c in items],
       'treatment': [ROWS[c][1] for _, c in items],
       'exclude': [ROWS[c][2] for _, c in items]})
+  if r is not None and shuffle and r.random() < 0.3:
+    cols = list(df.columns)
+    r.shuffle(cols)                       # columns are looked up by name: their order must not matter
+    df = df[cols]
   if index_keyed:
     df = df.set_index('geo')
   return df
